@@ -315,6 +315,7 @@ func c06Menu(thorough bool) []enga.ABlock {
 		enga.ABlock{Events: []enga.Event{{Kind: "req:cancel"}}},
 		enga.ABlock{Events: []enga.Event{{Kind: "tx:approve"}}},
 		enga.ABlock{Events: []enga.Event{{Kind: "tx:approve", Var: "twice-listed"}}},
+		enga.ABlock{Events: []enga.Event{{Kind: "tx:approve", Var: "reversed"}}},
 	)
 	if thorough {
 		m = append(m,
